@@ -1,0 +1,11 @@
+//go:build verif
+
+package extension
+
+// Trusted: whether the process runs inside the Docker Desktop extension is
+// read once from the process environment; the call has no effect on modelled
+// memory and always gives the same answer.
+//@ func EnvironmentIsExtension
+//@   opaque
+//@   pure
+//@   deterministic
